@@ -215,7 +215,7 @@ func selfcertReplay(args []string) {
 
 		switch c.Ao {
 		case 1:
-			sd["anchorOrigin"] = "  https://origin-1.example/path/  "
+			sd["anchorOrigin"] = "  https://origin-1.example/path/?a=1&b=<2>\u2028\u2029  "
 		case 2:
 			sd["anchorOrigin"] = anchorOrigin(102)
 		}
@@ -351,9 +351,16 @@ func selfcertReplay(args []string) {
 				}
 			}()
 
+			// (the namespace is an argument of the call: the same parser is asked under another one first)
+			other, oerr := parser.Parse("did:other:net", b)
+
 			op, err := parser.Parse("did:sidetree", b)
 			if err != nil {
 				return outcome{Error: err.Error()}
+			}
+
+			if oerr != nil || other.ID != "did:other:net:"+other.UniqueSuffix || other.UniqueSuffix != op.UniqueSuffix {
+				return outcome{Accepted: true, Suffix: op.UniqueSuffix, ID: "under did:other:net: " + fmt.Sprint(oerr, " ", other)}
 			}
 
 			return outcome{Accepted: true, Suffix: op.UniqueSuffix, ID: op.ID}
